@@ -2,6 +2,7 @@ import Psa.JsonIO
 import Psa.Namespace
 import Psa.Eval
 import Psa.Generated.Tables
+import Psa.Generated.Facts
 /-! Driver side of the `admit` op: decode configuration / request / world, run `validate`, encode the observables. -/
 namespace PSA.IO
 open Lean PSA
@@ -100,7 +101,7 @@ def admitOp (j : Json) : R Json := do
   let cfg ← config (← fld j "cfg")
   let req ← request (← fld j "req")
   let w ← world (← fld j "world")
-  let lim : Limits := { maxPods := (fldD j "maxPods").getNat?.toOption.getD 3000, timeout := 1000000000 }
+  let lim : Limits := { maxPods := Generated.namespaceMaxPodsToCheck, timeout := Generated.namespacePodCheckTimeoutNs }
   let (r, e) := validate parseVersion cfg lim w req
   return respJson r e
 
